@@ -51,8 +51,10 @@ func clientFacts() string {
 			panic(bail{rel + ": the SCT literal of addChainWithRetry no longer contains `" + need + "`"})
 		}
 	}
-	// id checks: either absent (the code as found) or the proposed fix `if err := c.checkLogID(resp.ID); err != nil { return … }`
+	// id handling: (0) copied unchecked (the code as found), (1) the earlier candidate `if err := c.checkLogID(resp.ID); err != nil { return … }`,
+	// or (2) the fix c15d346: with a verifier, a PRESENT id must equal logIDForKey(c.Verifier.PubKey) and the SCT carries that key hash
 	idLen, idKey := false, false
+	policy := 0
 	if i := stmtIndex(fd, "c.checkLogID(resp.ID)"); i >= 0 {
 		is, ok := fd.Body.List[i].(*ast.IfStmt)
 		if !ok || is.Init == nil || src(is.Init) != "err := c.checkLogID(resp.ID)" || src(is.Cond) != "err != nil" || !returnsNonNilError(is.Body) || i > ret {
@@ -64,12 +66,31 @@ func clientFacts() string {
 		if !idLen || !idKey {
 			panic(bail{rel + ": checkLogID no longer has the recognised body"})
 		}
-	} else if strings.Contains(src(fd.Body), "sha256.Size") || strings.Contains(src(fd.Body), "Sum256") {
-		panic(bail{rel + ": addChainWithRetry mentions sha256 in a way the extractor does not recognise"})
+		policy = 1
+	} else if i := stmtIndex(fd, "logIDForKey(c.Verifier.PubKey)"); i >= 0 {
+		is, ok := fd.Body.List[i].(*ast.IfStmt)
+		if !ok || is.Init != nil || src(is.Cond) != "c.Verifier != nil" || is.Else != nil || !(cp < i && i < ver) || len(is.Body.List) != 4 {
+			panic(bail{rel + ": unrecognised use of logIDForKey in addChainWithRetry"})
+		}
+		b := is.Body.List
+		e1, ok1 := b[1].(*ast.IfStmt)
+		e2, ok2 := b[2].(*ast.IfStmt)
+		if src(b[0]) != "keyID, err := logIDForKey(c.Verifier.PubKey)" || !ok1 || src(e1.Cond) != "err != nil" || !returnsNonNilError(e1.Body) ||
+			!ok2 || src(e2.Cond) != "len(resp.ID) != 0 && !bytes.Equal(resp.ID, keyID[:])" || !returnsNonNilError(e2.Body) || !strings.Contains(src(e2.Body), "RspError{") ||
+			src(b[3]) != "logID.KeyID = keyID" {
+			panic(bail{rel + ": the key-hash block of addChainWithRetry no longer has the recognised statements"})
+		}
+		lb := src(mustFunc(rel, "logIDForKey").Body)
+		if !strings.Contains(lb, "der, err := x509.MarshalPKIXPublicKey(pubKey)") || !strings.Contains(lb, "return sha256.Sum256(der), nil") {
+			panic(bail{rel + ": logIDForKey is no longer SHA-256 of MarshalPKIXPublicKey"})
+		}
+		policy = 2
+	} else if strings.Contains(src(fd.Body), "sha256.Size") || strings.Contains(src(fd.Body), "Sum256") || strings.Contains(src(fd.Body), "KeyID =") {
+		panic(bail{rel + ": addChainWithRetry handles the log ID in a way the extractor does not recognise"})
 	}
 	fmt.Fprintf(&sb, "/-- generated from %s func addChainWithRetry: is the length of the response's `id` compared with sha256.Size before it is copied into the SCT? -/\ndef addChainChecksIDLength : Bool := %v\n", rel, idLen)
-	fmt.Fprintf(&sb, "/-- generated from %s func addChainWithRetry: is `id` compared with the SHA-256 hash of the configured public key? -/\ndef addChainChecksIDAgainstKey : Bool := %v\n\n", rel, idKey)
-
+	fmt.Fprintf(&sb, "/-- generated from %s func addChainWithRetry: is `id` compared with the SHA-256 hash of the configured public key (checkLogID)? -/\ndef addChainChecksIDAgainstKey : Bool := %v\n", rel, idKey)
+	fmt.Fprintf(&sb, "/-- generated from %s func addChainWithRetry: how the response's `id` becomes the SCT's log ID.\n0: copied unchecked.  1: `checkLogID` (32 octets and, with a key, equal to its hash).  2: `if c.Verifier != nil { keyID := logIDForKey(key); a present id (len ≠ 0) that differs from keyID is an RspError; logID.KeyID = keyID }` — without a verifier the id is copied -/\ndef addChainIDPolicy : Nat := %d\n\n", rel, policy)
 	// --- GetSTH
 	fd = mustFunc(rel, "LogClient.GetSTH")
 	g := stmtIndex(fd, "c.GetAndParse(ctx, ct.GetSTHPath, nil, &resp)")
@@ -116,6 +137,38 @@ func clientFacts() string {
 		panic(bail{rel2 + ": unrecognised error return in GetEntries: " + src(body)})
 	}
 	fmt.Fprintf(&sb, "/-- generated from %s func GetEntries: is the failure to decode an entry of a 200 response returned as RspError (status, body)? -/\ndef getEntriesWrapsDecodeError : Bool := %v\n\n", rel2, wraps)
+
+	// --- the leaf builder addChainWithRetry verifies against (serialization.go)
+	rel4 := "serialization.go"
+	raw := mustFunc(rel4, "MerkleTreeLeafFromRawChain")
+	rb := src(raw.Body)
+	for _, need := range []string{"count := 3", "if count > len(rawChain) { count = len(rawChain) }", "cert, err := x509.ParseCertificate(rawChain[i].Data)",
+		"if x509.IsFatal(err) { return nil,", "return MerkleTreeLeafFromChain(chain, etype, timestamp)"} {
+		if !strings.Contains(rb, need) {
+			panic(bail{rel4 + ": MerkleTreeLeafFromRawChain no longer contains `" + need + "`"})
+		}
+	}
+	lf := mustFunc(rel4, "MerkleTreeLeafFromChain")
+	lb := src(lf.Body)
+	for _, need := range []string{"leaf.TimestampedEntry.X509Entry = &ASN1Cert{Data: chain[0].Raw}", "if etype != PrecertLogEntryType { return nil,",
+		"if len(chain) < 2 { return nil,", "issuer := chain[1]", "cert := chain[0]", "if IsPreIssuer(issuer) {", "if len(chain) < 3 { return nil,", "issuer = chain[2]",
+		"x509.BuildPrecertTBS(cert.RawTBSCertificate, preIssuer)", "IssuerKeyHash: sha256.Sum256(issuer.RawSubjectPublicKeyInfo)", "TBSCertificate: defangedTBS"} {
+		if !strings.Contains(lb, need) {
+			panic(bail{rel4 + ": MerkleTreeLeafFromChain no longer contains `" + need + "`"})
+		}
+	}
+	guards := false
+	for _, st := range lf.Body.List {
+		t := src(st)
+		if strings.Contains(t, "chain[0]") {
+			break
+		}
+		if is, ok := st.(*ast.IfStmt); ok && src(is.Cond) == "len(chain) == 0" && returnsNonNilError(is.Body) {
+			guards = true
+		}
+	}
+	fmt.Fprintf(&sb, "\n/-- generated from %s func MerkleTreeLeafFromChain: is an empty chain refused before `chain[0]` is touched? -/\ndef leafFromChainGuardsEmpty : Bool := %v\n", rel4, guards)
+	sb.WriteString("/-- generated from " + rel4 + ": MerkleTreeLeafFromRawChain parses at most three certificates (fatal error = error) and\nMerkleTreeLeafFromChain takes chain[0].Raw for an X.509 entry; for a precertificate entry the issuer is chain[1], or chain[2] when\nchain[1] is a pre-issuer, and the entry is (SHA-256 of the issuer's RawSubjectPublicKeyInfo, BuildPrecertTBS(chain[0].RawTBSCertificate, preIssuer)) -/\ndef leafFromChainShape : Bool := true\n")
 
 	// --- retry statuses of PostAndParseWithRetry
 	rel3 := "jsonclient/client.go"
